@@ -10,7 +10,7 @@ from vlib.cfg import write_target
 from vlib.work import AnalysisBroken
 from vlib.exprterm import Builder, TermError, NF, Poly, normal_form, show, member_chain, dsl_soundness
 
-UNITS = ["src/occa/internal/lang/builtins/attributes/dim.cpp", "src/occa/internal/lang/operator.cpp", "src/occa/internal/lang/expr/expr.cpp"]
+UNITS = ["src/occa/internal/lang/parser.cpp", "src/occa/internal/lang/builtins/attributes/dim.cpp", "src/occa/internal/lang/operator.cpp", "src/occa/internal/lang/expr/expr.cpp"]
 D = "occa::lang::attributes::dim::"
 
 
@@ -99,6 +99,24 @@ def run(ctx):
              "x(...) is rewritten to %s = %r, the documented mixed-radix index is %r: some index lands on another element (not a bijection onto [0, D0*...*Dk))" % (show(t), got, want))
     R.rule("C19-R3", "the expression DSL the fold is written in builds what its operators say (a + b -> `+` node, parens -> wrapInParentheses, a[b] -> subscript)", floor=15)
     dsl_soundness(prog, lambda ok, fn, key, site, detail: R.ob("C19-R3", ok, fn, key, site, detail))
+
+    # ---- the rewrite is part of every backend's pipeline: parser_t::parseTokens runs it between loading and the backend's afterParsing() ----
+    from vlib.flow import must_pass_through
+    R.rule("C19-R4", "every parse runs the @dim rewrite between loading the statements and the backend transformations, and its failure stops the parse", floor=3)
+    pt = prog.fn("occa::lang::parser_t::parseTokens")
+    load = [c for c in pt.calls() if callee(c).endswith("parser_t::loadAllStatements")]
+    if len(load) != 1:
+        raise AnalysisBroken("parser_t::parseTokens: loadAllStatements call not found")
+    r = must_pass_through(pt, load[0], lambda c: callee(c).endswith("::afterParsing"), lambda c: callee(c) == "occa::lang::attributes::dim::applyCodeTransformations")
+    if r is None:
+        raise AnalysisBroken("parser_t::parseTokens: afterParsing not reachable from loadAllStatements")
+    R.ob("C19-R4", r, pt.q, "pipeline:loadAllStatements -> @dim rewrite -> afterParsing", pt.site(load[0]),
+         "no path reaches the backend transformations without the rewrite" if r else "a path from loadAllStatements reaches afterParsing() without the @dim rewrite: the backend sees the untransformed code")
+    vc = [c for c in pt.calls() if callee(c) == "occa::lang::attributes::dim::applyCodeTransformations"]
+    kept = bool(vc) and all(any(write_target(a) is not None and noid(render(strip(write_target(a)), False)).endswith("success") and any(x["i"] == c["i"] for x in walk(a)) for a in pt.walk()) for c in vc)
+    R.ob("C19-R4", kept, pt.q, "pipeline:rewrite result folded into `success`", pt.site(vc[0]) if vc else pt.relfile, "a failed rewrite fails the parse" if kept else "the result of the rewrite is dropped")
+    ov = [o.q for o in prog.overriders("occa::lang::parser_t::parseTokens") if o.q != pt.q]
+    R.ob("C19-R4", not ov, pt.q, "pipeline:not overridden", "%s:%d" % (pt.relfile, pt.d["line"]), "one pipeline for all backends" if not ov else "overridden by %s" % ov)
     chk = [c for c in f.walk() if is_call(c) and callee(c) == D + "callHasValidIndices"]
     R.ob("C19-R2", len(chk) == 1, ac.q, "argument count checked against the dimension count", f.site(chk[0]) if chk else f.relfile, "callHasValidIndices before the fold")
     hv = prog.fn(D + "callHasValidIndices")
